@@ -399,6 +399,33 @@ func c14One(run *ev.Run, p c14P) {
 		run.Violation(key, fmt.Sprintf("%s: returned map (keys %v) equals no single repository version: %v", desc, c14Keys(got), reasons), cs, nil)
 		return
 	}
+	// "If the BMC ... reports a newer addition or erase timestamp during the walk, the partial result is
+	// discarded and the walk repeated": the walk whose result was returned is the one after the last
+	// reservation; the repository info read before it and the one read after it must not show a newer
+	// stamp (stamps of 0xffffffff, "unspecified", are left out: regime 1)
+	if p.TS != 1 {
+		lastReserve := -1
+		for i, rq := range log {
+			if rq.Kind == "reserve" {
+				lastReserve = i
+			}
+		}
+		var before, after *refbmc.RepoReq
+		for i := lastReserve - 1; i >= 0 && before == nil; i-- {
+			if log[i].Kind == "info" {
+				before = &log[i]
+			}
+		}
+		for i := len(log) - 1; i > lastReserve && after == nil; i-- {
+			if log[i].Kind == "info" {
+				after = &log[i]
+			}
+		}
+		if before != nil && after != nil && (after.AddTS > before.AddTS || after.EraseTS > before.EraseTS) {
+			run.Violation("C14:modified-walk-returned", fmt.Sprintf("%s: the walk whose result was returned began with addition/erase stamps %#x/%#x and ended with %#x/%#x: the BMC reported a newer stamp, yet the result was kept", desc, before.AddTS, before.EraseTS, after.AddTS, after.EraseTS), cs, nil)
+			return
+		}
+	}
 	// the final walk: after the last reservation every Get SDR succeeded under that reservation within one version
 	lastResv := -1
 	for i, rq := range log {
